@@ -40,7 +40,9 @@ RULE_TEXT = "one obligation per (rule, site): destructive call, saver creation, 
 ASSUMPTIONS = ["concurrent.futures.Future exposes result/exception/done/cancel/... only; anything else raises AttributeError"]
 
 DESTRUCTIVE = {"shutil.rmtree", "os.remove", "os.unlink", "os.rmdir", "os.rename", "os.replace", "shutil.move", "os.removedirs"}
-DESTRUCTIVE_METHODS = {"delete_many", "delete_one", "drop", "cleanup", "unlink", "rmdir"}
+# (<tempdir>.cleanup() only removes the object's own temporary directory and mailbox.cleanup() joins
+# threads: neither can touch stored data, so `cleanup` is not in this list)
+DESTRUCTIVE_METHODS = {"delete_many", "delete_one", "drop", "unlink", "rmdir"}
 
 # (function, call) -> (required provenance atoms of the first argument / receiver, required guard
 # literals [(text-substring, polarity)], reason)
@@ -54,8 +56,7 @@ TABLE = {
     ("save_file", "os.rename"): [(["str:_temp"], [], "publication of a chunk file")],
     ("_move_directories", "shutil.rmtree"): [(["source_directory"], [("replace", True)], "source removed only when replacement is requested")],
     ("_move_directories", "shutil.move"): [(["dest_directory"], [("replace", True)], "destination moved over the source only when replacement is requested")],
-    ("_move_directories", "cleanup"): [(["_temp_dir"], [("_temp_dir", True)], "own temporary directory")],
-    ("ZipDirectory.zip_dir", "shutil.rmtree"): [(["full_dirn"], [("delete", True)], "explicitly requested by the caller")],
+    ("ZipDirectory.zip_dir", "shutil.rmtree"): [(["input_dir"], [("delete", True)], "explicitly requested by the caller")],
     ("MongoSaver.__init__", "delete_many"): [(["key"], [], "own key, overwrite decided by the frontend")],
 }
 # .cleanup() of mailboxes is a thread join, not destructive
@@ -87,9 +88,7 @@ def destructive_calls(chk, repo, rule):
                     short, arg = cn, (c.args[0] if c.args else None)
                 elif isinstance(c.func, ast.Attribute) and c.func.attr in DESTRUCTIVE_METHODS:
                     recv = dotted(c.func.value) or ""
-                    if c.func.attr == "cleanup" and (recv in NOT_DESTRUCTIVE_RECEIVERS or recv == "super()" or recv == "self"):
-                        continue
-                    short, arg = c.func.attr, (c.func.value if c.func.attr == "cleanup" else (c.args[0] if c.args else c.func.value))
+                    short, arg = c.func.attr, (c.args[0] if c.args else c.func.value)
                 if short is None:
                     continue
                 n += 1
@@ -118,7 +117,7 @@ def destructive_calls(chk, repo, rule):
                 if not matched:
                     chk.fail(rule, f, st, f"reviewed destructive call lost its guard or changed its target ({why_not})",
                              site={"function": f.qualname, "call": short, "construct": head(st, 120)})
-    chk.floor(rule, "destructive call sites", n, 9)
+    chk.floor(rule, "destructive call sites", n, 8)
 
 
 # ------------------------------------------------------------------------------------ R2
@@ -307,16 +306,20 @@ def r4_copy_targets(chk, repo):
     texts = {t for t, p in conds}
     chk.check(any(t.startswith("self._is_stored_in_sf(") for t, p in conds if p is False), "C16.R4", f, None, "frontends that already hold the data are not excluded from the copy targets (their data would be overwritten or DataExistsError raised)", site_text="_get_target_sf: not already stored")
     chk.check(any("._we_take(" in t for t, p in conds if p is True), "C16.R4", f, None, "frontends that do not accept the data type are not excluded", site_text="_get_target_sf: frontend takes the data type")
-    chk.check(("t_sf.readonly is False", True) in conds or any(t.endswith(".readonly") and p is False for t, p in conds), "C16.R4", f, None, "readonly frontends are not excluded from the copy targets", site_text="_get_target_sf: not readonly")
+    chk.check(any((t.endswith(".readonly is False") and p is True) or (t.endswith(".readonly") and p is False) for t, p in conds), "C16.R4", f, None, "readonly frontends are not excluded from the copy targets", site_text="_get_target_sf: not readonly")
     cp = repo.func("Context.copy_to_frontend", CONTEXT)
-    d = Defs(cp.node)
-    md = d.single("md")
-    chk.check(md is not None and norm(md) == "s_be.get_metadata(s_be_key)", "C16.R4", cp, None, "metadata given to the target saver is not the source's metadata", site_text="copy_to_frontend: md = s_be.get_metadata(s_be_key)")
-    ld = [v for v, s, how in d.defs.get("loader", []) if v is not None]
-    chk.check(bool(ld) and all(norm(v) == "s_be.loader(s_be_key)" for v in ld), "C16.R4", cp, None, "data is not loaded from the key whose metadata is copied", site_text="copy_to_frontend: loader = s_be.loader(s_be_key)")
-    sb = d.single("s_be_key") or None
-    fnd = [v for v, s, how in d.defs.get("s_be_key", []) if v is not None]
-    chk.check(bool(fnd) and all("source_sf.find(data_key)" in norm(v) for v in fnd), "C16.R4", cp, None, "source key is not looked up (with the broken-data check) on the source frontend", site_text="copy_to_frontend: source_sf.find(data_key)")
+    from ..pattern import find as pfind, pmatch
+    sv = [c for c in calls_in(cp.node) if isinstance(c.func, ast.Attribute) and c.func.attr == "_saver" and len(c.args) >= 2 and isinstance(c.args[1], ast.Name)]
+    MD = sv[0].args[1].id if sv else None
+    mdd = pfind(cp.node, f"{MD} = L_be.get_metadata(L_key)") if MD else []
+    chk.check(len(mdd) == 1, "C16.R4", cp, None, "metadata given to the target saver is not the source's metadata", site_text="copy_to_frontend: md = <source backend>.get_metadata(<source key>)")
+    if mdd:
+        BE, KEY = mdd[0][1]["L_be"], mdd[0][1]["L_key"]
+        lds = [st for st, b in pfind(cp.node, f"L_ld = {BE}.loader({KEY})")]
+        chk.check(bool(lds), "C16.R4", cp, None, "data is not loaded from the key whose metadata is copied", site_text="copy_to_frontend: loader = <source backend>.loader(<source key>)")
+        fnd = pfind(cp.node, f"(L_s, {KEY}) = L_sf.find(L_dk)")
+        okf = bool(fnd) and bool(pfind(cp.node, f"{BE} = {fnd[0][1]['L_sf']}._get_backend({fnd[0][1]['L_s']})")) and bool(pfind(cp.node, f"{fnd[0][1]['L_sf']} = self.get_source_sf(run_id, target, should_exist=True)[0]"))
+        chk.check(okf, "C16.R4", cp, None, "source key is not looked up (with the broken-data check) on the source frontend", site_text="copy_to_frontend: <source frontend>.find(data_key) -> backend, key")
     ex = [n for n in walk_body(cp.node) if isinstance(n, ast.Raise) and "DataNotAvailable" in norm(n.exc)] + [c for c in calls_in(cp.node) if (call_name(c) or "").endswith("_check_copy_to_frontend_kwargs")]
     chk.check(bool(ex), "C16.R4", cp, None, "copy does not verify that the source exists", site_text="copy_to_frontend: argument / existence check")
 
